@@ -51,17 +51,17 @@ CHECKS = {
  "C15": ("mc_kernels", "4/C15", "exhaustive enumeration of slice triples with independent lengths 0..=10 (alphabet products for short, run shapes for long slices), word primitives on the boundary alphabet squared x carries, shifts by every amount 0..=63, vs BigUint",
          "addmul/addmul_n, the n x 1 kernels, adc/sbb families, small shifts and cmp are compared with exact integer results including the carry / borrow / overflow outputs.",
          "Same bounds as C14. Amount 0 is in contract for the small shifts (only stated precondition is amount < 64)."),
- "C16": ("mc_codec", "4/C16", "exhaustive enumeration of the mode-boundary value universe (2^k+d for every k, small values in wide types) over 22-26 widths x every integration: encoder bytes vs independent reference codecs (and vs the codec crate's own u128 encoding), exact lengths / hints / maxima, decode(encode(v)) = v, postgres round trips per column type, fixed-width primitive-types / bytemuck / ark-ff conversions",
+ "C16": ("mc_codec", "4/C16", "exhaustive enumeration of the mode-boundary value universe (2^k+d for every k, small values in wide types) over 22-26 widths x every integration: encoder bytes vs independent reference codecs (and vs the codec crate's own u128 encoding), exact lengths / hints / maxima, decode(encode(v)) = v, postgres round trips per column type (also two values into one buffer and Vec<Uint> as a postgres array), containers (Vec / array / Option / tuple of Uint) through borsh, SCALE, alloy-rlp, ssz, serde_json and bincode vs reference container encodings, the caller's buffer as a dimension (exact fixed slices, BytesMut with little capacity, short writes), fixed-width primitive-types / bytemuck / ark-ff conversions",
          "Every enabled integration is executed on a complete finite value universe per width and compared byte-for-byte with reference codecs written from the format definitions; round trips and advertised sizes are checked per case.",
          "Values from the stated universes, widths from the stated grid. JSON tokenisation and the codec crates' framing are trusted; diesel/sqlx/pyo3/bn-rs are not named by the property and not built."),
- "C17": ("mc_codec", "4/C17", "exhaustive enumeration of ALL byte strings of length <= 2 (3 thorough) and of every single-field mutation of every valid encoding (incl. out-of-range values and non-minimal forms), each input fed to EVERY decoder, vs reference readers that say what the bytes denote; termination watchdog",
+ "C17": ("mc_codec", "4/C17", "exhaustive enumeration of ALL byte strings of length <= 2 (3 thorough) and of every single-field mutation of every valid encoding (incl. out-of-range values and non-minimal forms), each input fed to EVERY decoder, vs reference readers that say what the bytes denote; container decoders (Vec / array / Option / tuple through six codecs) on mutated container encodings and hostile length prefixes; serde's value deserializers; termination watchdog",
          "No decoder may panic or hang; an accepted value must be the denoted one, canonical and < 2^BITS; alloy-rlp / fastrlp / DER must reject everything but the reference encoding. ~1.6*10^8 decoder executions in the quick tier.",
          "Inputs longer than 3 bytes are single mutations of valid encodings, not all strings. C17 never requires acceptance (that is C16)."),
  "C20": ("mc_facade", "4/C20", "exhaustive enumeration of operand tuples x ~130 facade entry points (six operator impl shapes, shift operators for 10 amount types and Uint amounts, every forwarded Bits method/operator, num-traits, num-integer, subtle, zeroize, Sum/Product); each execution returns (facade result, inherent result) from the real code, each side under its own catch_unwind",
          "The reference is the inherent method itself, called by path on the same operands in the same execution; results, Options, flags and panics must agree (a facade may panic only where the inherent method does or where its signature cannot express the inherent None).",
          "Universes: S(B)^2 for B<=8, limb-alphabet / 2^k+-1 universes at 10 wider widths, every shift/bit argument 0..B+65. Whether the inherent methods themselves are right is decided by C01-C13."),
- "C04": ("mc_canon", "4/C04", "explicit-state search (stateright BFS, transition function = the real operations, invariants canonical + equal to the Z/2^BITS reference on every edge; full closure at 0..8 bits, bounded depth at wide widths) + exhaustive enumeration of comparisons/hashing, rejecting constructors and generators driven by enumerated RNG tapes + bounded exhaustive program-space probe of ill-formed (BITS,LIMBS) pairs through the real compiler",
-         "Closure of the canonical set under 79 operations is searched exhaustively (every reachable state canonical, every edge equal to the reference); ==, Hash and ordering are compared with the integers on all pairs; constructors must reject out-of-range limbs; 68 constructors x 10 ill-formed type pairs must be rejected at compile time or panic (with control programs on well-formed types).",
+ "C04": ("mc_canon", "4/C04", "explicit-state search (stateright BFS, transition function = the real operations, invariants canonical + equal to the Z/2^BITS reference on every edge; full closure at 0..8 bits, bounded depth at wide widths) + exhaustive enumeration of comparisons/hashing, rejecting constructors and generators driven by enumerated RNG tapes (in two feature configurations of ruint: all features, and rand without rand-09 in harness_alt) + bounded exhaustive program-space probe of ill-formed (BITS,LIMBS) pairs through the real compiler",
+         "Closure of the canonical set under 96 operations (incl. every compound assignment operator) is searched exhaustively (every reachable state canonical, every edge equal to the reference); ==, Hash and ordering are compared with the integers on all pairs; constructors must reject out-of-range limbs; 68 constructors x 10 ill-formed type pairs must be rejected at compile time or panic (with control programs on well-formed types).",
          "quickcheck::Gen has a private entropy-seeded RNG: its draws are sampled and labelled so, not counted as exhaustive. Closure edges without a reference are checked for canonicity only. Trusted: stateright bookkeeping (BFS vs DFS counts cross-checked), rustc."),
  "C19": ("probe", "4/C19", "bounded exhaustive enumeration of a program space (bases x digit strings x underscore placement x suffix x 16-29 widths up to 4096, pass-through tokens alone and nested) compiled through the real rustc + ruint-macro built from the working tree, vs Python integers and run-time parsing of the same digits",
          "Every accepting literal's limbs and width are compared with the reference value and with from_str_radix at run time; every rejecting literal is its own program and must fail to compile; pass-through tokens must keep value and type at any nesting depth; failing batches are bisected to single literals.",
@@ -112,6 +112,7 @@ def main():
             {"name": "mc_kernels", "path": "harness/src/bin/mc_kernels.rs", "serves_properties": ["C11", "C12", "C14", "C15"], "kind_free_text": E1},
             {"name": "mc_facade", "path": "harness/src/bin/mc_facade.rs", "serves_properties": ["C20"], "kind_free_text": E1},
             {"name": "mc_canon", "path": "harness/src/bin/mc_canon.rs", "serves_properties": ["C04"], "kind_free_text": "explicit-state search (stateright) whose transition function calls the real operations + exhaustive enumeration of constructors/generators"},
+            {"name": "harness_alt", "path": "harness_alt/src/main.rs", "serves_properties": ["C04"], "kind_free_text": "exhaustive enumeration of RNG tapes through the generators of a second feature configuration of ruint (rand without rand-09), run by ./vcheck run C04"},
             {"name": "probe", "path": "probe/probe_engine.py", "serves_properties": ["C19", "C04"], "kind_free_text": "bounded exhaustive exploration of a program space through the real compiler and macro"},
         ],
         "checks": checks,
